@@ -3226,6 +3226,20 @@ unit(name="SrcMyersMatches", props="properties C09, C10", file="src/pattern_matc
                      theorem="RbV.Thm.GenSrcMyersSimple.next_eq_model")])
 
 
+# `long::Myers<T>` (block-based): a block is a `State<T, usize>` (`pv`, `mv`, `dist`), the per-block pattern data a `Peq<T>`
+# (`peq`, `bound`); the horizontal differences `hin` / `hout` between blocks are `i8` bit patterns (−1 = 255).
+MYERS_LONG_STRUCTS = {"State": [("pv", "T"), ("mv", "T"), ("dist", "usize")],
+                      "Peq": [("peq", "[T; 256]"), ("bound", "T")]}
+
+unit(name="SrcMyersLong", props="properties C09, C10", file="src/pattern_matching/myers/long.rs",
+     imports=["RbV.Basic.RsSemWord"], word_types={"T": "w"}, type_paths={"T": "T"}, structs=MYERS_LONG_STRUCTS,
+     signed_arith=True,
+     functions=[dict(name="advance_block", lean="advanceBlock",
+                     header="fn advance_block<T: BitVec>(state: &mut State<T, usize>, p: &Peq<T>, a: u8, hin: i8) -> i8",
+                     params=[("state", "&mut State"), ("p", "&Peq"), ("a", "u8"), ("hin", "i8")], ret="i8",
+                     theorem="RbV.Thm.GenSrcMyersLong.advanceBlock_eq_model")])
+
+
 # ================================================================================================== self-test
 
 SELFTEST_RS = r"""
